@@ -207,6 +207,13 @@ def stream_of(it, env, depth=0):
         return Stream("zip", fields, filters)
     if isinstance(it, ast.Call) and call_name(it) in ("list", "tuple", "iter") and len(it.args) == 1:
         return stream_of(it.args[0], env, depth + 1)
+    # itertools.compress(rows, selectors): the rows whose selector entry is true, selectors aligned row by row with the stream
+    if isinstance(it, ast.Call) and call_name(it) in ("compress", "itertools.compress") and len(it.args) == 2 and not it.keywords:
+        src = stream_of(it.args[0], env, depth + 1)
+        if src.kind != "zip":
+            raise Undecided("compress over an index stream")
+        sel = array_field(it.args[1], env)
+        return Stream("zip", src.fields, list(src.filters) + [(sel, True)])
     # index sets
     if isinstance(it, ast.Call) and call_name(it) == "np.flatnonzero" and it.args:
         return Stream("index", index_mask=array_field(it.args[0], env))
